@@ -76,7 +76,7 @@ AllButOpenFailure == AllFix \ {"open-failure-report-to-dead-protocol"}
 AllButMap == AllFix \ {"stale-protocol-map"}
 Me == "A"
 NewC == [st |-> "accepting", ntf |-> {}, tell |-> {}, mtold |-> FALSE, strong |-> {}, permits |-> 0,
-         cmdq |-> <<>>, pend |-> {}]
+         cmdq |-> <<>>, pend |-> {}, np |-> FALSE, nclose |-> 0]
 Ev(k, c) == [k |-> k, c |-> c]
 Obs(r) == mon' = MonEv(mon, r)
 Obs2(r1, r2) == mon' = MonEv(MonEv(mon, r1), r2)
@@ -194,7 +194,9 @@ Downgrade(c) ==
   /\ LET qs == {q \in conn[c].strong : open_[q] /\ c \in {svc[q].pri, svc[q].sec}} IN
      /\ qs # {}
      /\ conn' = [conn EXCEPT ![c].strong = @ \ qs]
-  /\ NoStim /\ UNCHANGED <<pch, open_, mch, mgr, svc, next, nsub, mon, kf>>
+  \* recorded in the schedule (the unit-level replay releases the handles), not counted as a stimulus
+  /\ nst' = nst /\ hist' = Append(hist, [a |-> "idle", c |-> c])
+  /\ UNCHANGED <<pch, open_, mch, mgr, svc, next, nsub, mon, kf>>
 
 \* TransportService::open_substream on the primary connection (only the successful call changes state)
 POpen(q) ==
@@ -233,14 +235,14 @@ DropProtocol(q) ==
 -----------------------------------------------------------------------------
 (* Connection task: TcpConnection::start()                                  *)
 
-StartClosing(c) == [conn EXCEPT ![c].st = "closing", ![c].tell = P, ![c].mtold = FALSE, ![c].pend = {}]
+StartClosing(c) == [conn EXCEPT ![c].st = "closing", ![c].tell = P, ![c].mtold = FALSE, ![c].pend = {}, ![c].nclose = @ + 1]
 
 \* originally a `?` exit: the loop is left without report_connection_closed; repaired (no permit for
 \* an inbound substream): the connection is closed the regular way, with the report
 SilentExit(c, tag) == conn' = [conn EXCEPT ![c].st = "exited", ![c].pend = {}] /\ kf' = kf \cup {tag}
 ErrorExit(c) ==
   IF "no-permit-exit" \in Fixed
-    THEN conn' = StartClosing(c) /\ UNCHANGED kf
+    THEN conn' = [StartClosing(c) EXCEPT ![c].np = TRUE] /\ UNCHANGED kf
     ELSE SilentExit(c, "no-permit-exit")
 
 \* a substream report to a protocol whose receiver is gone: originally a `?` exit; repaired: the
@@ -325,7 +327,11 @@ TellMgr(c) ==
 
 TExit(c) ==
   /\ conn[c].st = "closing" /\ conn[c].tell = {} /\ conn[c].mtold
-  /\ conn' = [conn EXCEPT ![c].st = "exited"]
+  \* seeded bug "no-permit-continues": the repaired no-permit branch reports the connection closed but does not
+  \* leave the loop (returns Ok(false)); the loop then ends through another exit and reports again
+  /\ conn' = IF Mutant = "no-permit-continues" /\ conn[c].np
+               THEN [conn EXCEPT ![c].st = "running", ![c].np = FALSE]
+               ELSE [conn EXCEPT ![c].st = "exited"]
   /\ NoStim /\ UNCHANGED <<pch, open_, mch, mgr, svc, next, nsub, mon, kf>>
 
 -----------------------------------------------------------------------------
@@ -403,6 +409,9 @@ NoStuck == (\E c \in Cids : ~Dead(c)) \/ ~Drained =>
 ProtocolsBeforeManager ==
   [][\A c \in Cids : (c \in DOMAIN conn' /\ ~conn[c].mtold /\ conn'[c].mtold) => conn[c].tell = {}]_vars
 
+\* report_connection_closed runs at most once per connection (a second run is absorbed by TransportService
+\* and the manager - or trips their debug assertions - so it does not show in the monitor's events)
+ClosedOnceRaw == \A c \in Cids : conn[c].nclose <= 1
 \* no defect path is taken (standard configuration); violated by the unrepaired configurations
 NoKf == kf = {}
 \* the monitor itself, without the defect-tag guard (self-test: an unrepaired model must violate these)
